@@ -126,4 +126,33 @@ theorem loadTest_double (j : Int) (size : Nat) (hsz : size ≤ intMax) (hj : j <
   simp only [decide_eq_false_iff_not, ge_iff_le, Int.not_le]
   omega
 
+/-- when the load test fires the table is at least half full: `size ≤ 2·count + 1` -/
+theorem size_le_of_loadTest (j : Nat) (size : Nat) (hsz : size ≤ intMax) (h : loadTest (j : Int) size = true) :
+    size ≤ 2 * j + 1 := by
+  unfold loadTest at h
+  have h' : (j : Int) * (lhLoadDen : Int) ≥ ((roundDouble (size * lhLoadNum) : Nat) : Int) := by simpa using h
+  have hden := loadDen_eq
+  have hn := loadDen_le_two_num
+  have hn1 := loadNum_le_den
+  have him := intMax_lt
+  have hbig : size * lhLoadNum < 2 ^ 113 := by
+    have h1 : size * lhLoadNum ≤ size * lhLoadDen := Nat.mul_le_mul_left _ hn1
+    have h2 : size * lhLoadDen < 2 ^ 31 * 2 ^ 60 := by
+      rw [hden]; exact Nat.mul_lt_mul_of_pos_right (by omega) (Nat.two_pow_pos _)
+    have : (2:Nat) ^ 31 * 2 ^ 60 ≤ 2 ^ 113 := by decide
+    omega
+  have hhalf : size / 2 * 2 ^ 60 ≤ size * lhLoadNum := by
+    have h1 : size / 2 * lhLoadDen ≤ size / 2 * (2 * lhLoadNum) := Nat.mul_le_mul_left _ hn
+    have h2 : size / 2 * (2 * lhLoadNum) = (size / 2 * 2) * lhLoadNum := by rw [Nat.mul_assoc]
+    have h3 : size / 2 * 2 * lhLoadNum ≤ size * lhLoadNum := Nat.mul_le_mul_right _ (Nat.div_mul_le_self size 2)
+    rw [← hden]; omega
+  have hr := le_roundDouble _ (size / 2) hbig hhalf
+  rw [hden] at h'
+  have h2 : ((size / 2 * 2 ^ 60 : Nat) : Int) ≤ (j : Int) * ((2 ^ 60 : Nat) : Int) := by
+    have : ((size / 2 * 2 ^ 60 : Nat) : Int) ≤ ((roundDouble (size * lhLoadNum) : Nat) : Int) := by exact_mod_cast hr
+    omega
+  have h3 : size / 2 * 2 ^ 60 ≤ j * 2 ^ 60 := by exact_mod_cast h2
+  have h4 : size / 2 ≤ j := Nat.le_of_mul_le_mul_right h3 (Nat.two_pow_pos _)
+  omega
+
 end JsonC.Linkhash
